@@ -59,7 +59,7 @@ Theorem vm_refines_spec n e a emit p sg s :
   end.
 Proof.
   intros Fr Ro Li R.
-  pose proof (vm_refines_spec_psim OG extras uranges pp cfg w Hcfg HG n e a emit p sg Fr Ro Li) as H.
+  pose proof (vm_refines_spec_psim OG extras uranges pp cfg w Hcfg HG n e a emit p sg Fr (rok_rokP OG K e Ro) Li) as H.
   pose proof (HE OG extras uranges pp HG) as HE'.
   destruct (ev n a emit (embed e) p sg) as [p' sg' f| |] eqn:Ev; [| |exact I].
   - destruct (H ltac:(discriminate) s R) as (vr & R1 & S1). pose proof R1 as [_ [m A]].
@@ -72,7 +72,7 @@ Proof.
   - destruct (H ltac:(discriminate) s R) as (vr & R1 & S1). pose proof R1 as [_ [m A]].
     exists m, vr. split; [exact A|]. destruct vr as [s'|s'|k|]; cbn in S1.
     + exact S1.
-    + destruct S1 as (_ & A1 & A2 & A3). split; [exact A1|]. split; [exact A2|]. split; [exact A3|].
+    + destruct S1 as (_ & A1 & A2 & A3). split; [exact A1|]. split; [exact A2|]. split; [intros Hc; apply A3; left; exact Hc|].
       exact (run_inv cfg E Hcfg HE' _ s _ (r_good _ _ _ _ _ _ R) (pv_expr OG uranges e Li) R1).
     + exact S1.
     + exact S1.
@@ -153,7 +153,7 @@ Theorem vm_terminates_spec_explicit m e a emit p sg s :
   ev m a emit (embed e) p sg <> SFuel.
 Proof.
   intros Fr Ro Li R (s' & Hs).
-  apply (vm_terminates_spec OG extras uranges pp cfg w Hcfg HG m e a emit p sg Fr Ro Li s
+  apply (vm_terminates_spec OG extras uranges pp cfg w Hcfg HG m e a emit p sg Fr (rok_rokP OG K e Ro) Li s
            (exec cfg E m (vm_expr OG uranges e) s) R).
   - split; [destruct Hs as [-> | ->]; discriminate|]. exists m. split; [apply Nat.le_refl|reflexivity].
   - intros k Hk. destruct Hs as [Hs|Hs]; congruence.
